@@ -14,7 +14,7 @@ from ..rules import norm
 META = {
     "level": "other",
     "technique": "scenario-wise evaluation of the header writer/reader wire signatures (typed HIR; version × flags variant × locator variant) + variant-coverage of the content dispatchers",
-    "claim": "Decides header layout agreement between encode_header and parse_header for BLP0/BLP1/BLP2, that every BlpContent variant is dispatched by both the encoder and the parser, and that the locator tables have equal entry counts. Does not decide pixel exactness, offset non-overlap or mipmap-count arithmetic (value-level). Also: bit-plane lengths round up and sibling parsers agree; the (compression, alpha_type) written selects the stored content variant in the parser; every mip-level bound reaches the last level. Wave 5: the header parser keeps every alpha depth the encoder can write (evaluated per content kind); mip levels are resampled with an exact-size call; halving clamps are evaluated, not matched as text. Wave 6: image_to_raw3 packs a<<24|r<<16|g<<8|b for every pixel with no value-dependent control flow. Wave 7: mipmap_size halves each side independently down to 1 (576 evaluations); the RAW3 unpacker reads the packed layout; the alpha-plane unpackers (1/4/8 bit) read the bit positions the packers' loop structure writes.",
+    "claim": "Decides header layout agreement between encode_header and parse_header for BLP0/BLP1/BLP2, that every BlpContent variant is dispatched by both the encoder and the parser, and that the locator tables have equal entry counts. Does not decide pixel exactness, offset non-overlap or mipmap-count arithmetic (value-level). Also: bit-plane lengths round up and sibling parsers agree; the (compression, alpha_type) written selects the stored content variant in the parser; every mip-level bound reaches the last level. Wave 5: the header parser keeps every alpha depth the encoder can write (evaluated per content kind); mip levels are resampled with an exact-size call; halving clamps are evaluated, not matched as text. Wave 6: image_to_raw3 packs a<<24|r<<16|g<<8|b for every pixel with no value-dependent control flow. Wave 7: mipmap_size halves each side independently down to 1 (576 evaluations); the RAW3 unpacker reads the packed layout; the alpha-plane unpackers (1/4/8 bit) read the bit positions the packers' loop structure writes. Wave 8: the 4-bit alpha quantiser picks the nearest level of the unpacker's expansion (256 values, float-aware evaluation).",
     "note": "Trusted: push_le_u32/Vec::push/extend widths; ByteReader primitive names.",
     "assumptions": ["BLP0 ⇒ external mipmaps, BLP1/2 ⇒ internal; BLP2 ⇔ BlpFlags::Blp2"],
     "explanation": "wow_blp::encode::encode_header vs wow_blp::parser::header::{parse_header, parse_magic, parse_mipmap_locator}; encode_content / parse_content match arms over BlpContent(Tag).",
